@@ -1,4 +1,5 @@
 import LolHtml.Lemmas.ScanIndepLegs
+import LolHtml.Lemmas.ScanLexEnd
 import LolHtml.Thm.C06_Scan
 import LolHtml.Thm.C06_FullCtl
 /-!
@@ -21,9 +22,15 @@ with their DISPATCHERS as sinks (item (2) of "what is left" in `Thm/C06_Handover
   `handle_start_tag` calls ends in a different state. This is the `inTag` case of `Aligned` at end of input —
   the one-hint-ahead is not a proof artefact. (Not a defect of the code: no handler runs at a hint; the model's
   "final state of `H`" also sees the selector-matching stack.) Corrected target: `C06_independence_statement4`.
-* NOT proved: the last state-function call (the one that breaks at the end of the input: `StepRel` says
-  nothing about the machines when both signal), `Parser.parse` / `Stream` / `Rewriter` level, rungs R2
-  (hand-over) and R3 — statements at the end.
+* `C06_scan_indep_loop` — the same for a whole run of the parsing loop: both loops run to "end of input" (the
+  plain run never leaves the tag scanner), the contexts are aligned at the end (`AlignedX`; the last
+  state-function call, in which both machines break, is `Lemmas/ScanLexEnd.lean`).
+  `C06_scan_indep_parse_partial` — the same for one `Parser::parse` call of fresh parsers (any `last`): both
+  calls succeed; outside a tag `H` is in the same state and the dispatchers are `ObsR false`-related; inside a
+  tag the plain run is one hint ahead. This is rung R1 at parser level.
+* NOT proved: `Stream` / `Rewriter` level even for R1 (a `write` parses with `last = false` and the two runs
+  retain different tails — `tag_start..` vs `lexeme_start..` —, so the `end` call parses different buffers:
+  item (3) does not disappear with a single `write`), rung R2 (hand-over), rung R3 — statements at the end.
 -/
 set_option linter.unusedSimpArgs false
 set_option linter.unusedVariables false
@@ -55,6 +62,16 @@ theorem runSteps_congS {κ₁ κ₂ : Type} {C : Cong κ₁ κ₂} {env₁ : Env
         rw [hs] at he; cases he
       · rw [← hsig, hs]
         exact ih _ _ hmr h1
+
+/-- `Parser::parse` when the first run of the parsing loop ends with "end of input" -/
+theorem parse_eoi {κ : Type} (env : Env κ) (inp : Bytes) (last : Bool) (p : Parser κ) (k : Nat)
+    (h : (runLoop env inp (defaultFuel inp) (p.machine last)).2 = .endOfInput k) :
+    Parser.parse env inp last p =
+      ({ p.store (runLoop env inp (defaultFuel inp) (p.machine last)).1 with
+          x := { (p.store (runLoop env inp (defaultFuel inp) (p.machine last)).1).x with
+            prevConsumed := (p.store (runLoop env inp (defaultFuel inp) (p.machine last)).1).x.prevConsumed + k } }, .ok k) := by
+  show Parser.parseLoop env inp last ((2 * inp.length + 7) + 1) p = _
+  simp only [Parser.parseLoop, h]
 
 /-! ### alignment -/
 
@@ -140,6 +157,132 @@ theorem C06_scan_indep_same_state (hside : PhaseOk tbl P = true) (ht : EmitsChec
   obtain ⟨e1, _, e3, _⟩ := C06_aligned_boundary hal hab
   have hc : ml'.x.sink.ctl = (ms'.x.sink.ctl, ms'.x.sink.flags) := e3.ctl
   exact ⟨by rw [hc], e3, e1⟩
+
+/-! ### the whole parsing loop, `Parser.parse` -/
+
+/-- alignment of the contexts only (after `break_on_end_of_input` the registers of the two machines are no
+longer comparable: the scanner keeps `tag_start..`, the lexer `lexeme_start..`): there are related logging-sink
+machines `ms0`, `ml0` (`RelAt`), `ms0` in the table state of `ms`, whose contexts are the legs' images of the
+contexts of `ms`, `ml` -/
+def AlignedX (H : Controller γ) (o : Flags) (cfg : TagCfg) (P : PLabels) (d0 : Disp γ) (ms : M (Disp γ))
+    (ml : M (Disp (γ × Flags))) : Prop :=
+  ∃ ms0 ml0 : M L, RelAt cfg P ms0 ml0 ∧ ms.c.state = ms0.c.state ∧ (scanCong H d0).Rx ms.x ms0.x ∧ (lexCong H o d0).Rx ml.x ml0.x
+
+theorem AlignedX.aligned {d0 : Disp γ} {ms : M (Disp γ)} {ml : M (Disp (γ × Flags))} (h : AlignedX H o cfg P d0 ms ml) :
+    ∃ (ms1 : M (Disp γ)) (ml1 : M (Disp (γ × Flags))), Aligned H o cfg P d0 ms1 ml1 ∧ ms1.x = ms.x ∧ ml1.x = ml.x ∧
+      ms1.c.state = ms.c.state := by
+  obtain ⟨ms0, ml0, hrel, hst, hS, hL⟩ := h
+  have hrel' := hrel
+  unfold RelAt at hrel'
+  obtain ⟨cs, s, xs, cl, l, xl, rfl, rfl, _⟩ := Rel_destruct hrel'
+  exact ⟨⟨cs, .scanner s, ms.x⟩, ⟨cl, .lexer l, ml.x⟩,
+    ⟨_, _, ⟨rfl, rfl, ⟨s, rfl⟩, hS⟩, ⟨rfl, rfl, ⟨l, rfl⟩, hL⟩, hrel⟩, rfl, rfl, hst.symm⟩
+
+/-- outside a tag: the dispatchers are related, `H` is in the same state -/
+theorem C06_alignedX_boundary {d0 : Disp γ} {ms : M (Disp γ)} {ml : M (Disp (γ × Flags))} (h : AlignedX H o cfg P d0 ms ml)
+    (hab : P.at ms.c.state ≠ .inTag) :
+    ObsR false ml.x.sink ms.x.sink ∧ ScanMode H ms.x.sink ∧ ms.x.sim = ml.x.sim ∧ ml.x.sink.ctl.1 = ms.x.sink.ctl := by
+  obtain ⟨ms1, ml1, hal, e1, e2, e3⟩ := h.aligned
+  obtain ⟨_, b2, b3, b4⟩ := C06_aligned_boundary hal (by rw [e3]; exact hab)
+  rw [e1, e2] at b3 b2
+  rw [e1] at b4
+  have hc : ml.x.sink.ctl = (ms.x.sink.ctl, ms.x.sink.flags) := b3.ctl
+  exact ⟨b3, b4, b2, by rw [hc]⟩
+
+/-- inside a tag: the plain run's dispatcher is one hint ahead -/
+theorem C06_alignedX_inTag {d0 : Disp γ} {ms : M (Disp γ)} {ml : M (Disp (γ × Flags))} (h : AlignedX H o cfg P d0 ms ml)
+    (hab : P.at ms.c.state = .inTag) :
+    ∃ (D : Disp γ) (ev : TagEv), ObsR false ml.x.sink D ∧ ScanMode H D ∧ ms.x.sink = hintEv H D ev := by
+  obtain ⟨ms1, ml1, hal, e1, e2, e3⟩ := h.aligned
+  obtain ⟨D, ev, b1, b2, b3⟩ := C06_aligned_inTag hal (by rw [e3]; exact hab)
+  rw [e2] at b1
+  rw [e1] at b3
+  exact ⟨D, ev, b1, b2, b3⟩
+
+/-- **C06_scan_indep_loop** (rung R1 for one run of the parsing loop). Aligned machines, both parsing loops
+(the dispatchers as sinks) run until "end of input" — the plain run never leaves the tag scanner, the observing
+run does not fail —: the contexts are aligned at the end (`AlignedX`): outside a tag the dispatchers are
+`ObsR false`-related and `H` is in the same state (`C06_alignedX_boundary`), inside a tag the plain run is one
+hint ahead (`C06_alignedX_inTag`; cf. `C06_unfinished_tag_witness`). -/
+theorem C06_scan_indep_loop (hside : PhaseOk tbl P = true) (ht : EmitsChecked tbl = true)
+    (hs : StayScan H) (hh : HashOnly H) (ed : EmitDiscipline H) (ho : o.sticky = true) (inp : Bytes) (d0 : Disp γ)
+    (n ks kl : Nat) (ms ms' : M (Disp γ)) (ml ml' : M (Disp (γ × Flags))) (hal : Aligned H o cfg P d0 ms ml)
+    (h1 : runLoop (envPlain H tbl cfg) inp n ms = (ms', .endOfInput ks))
+    (h2 : runLoop (envObs H o tbl cfg) inp n ml = (ml', .endOfInput kl)) :
+    AlignedX H o cfg P d0 ms' ml' ∧ (∃ s, ms'.r = .scanner s) ∧ (∃ l, ml'.r = .lexer l) := by
+  obtain ⟨msL, mlL, hS, hL, hrel⟩ := hal
+  rcases Cong.runLoop_congS (scanS_ok (d0 := d0) (tbl := tbl) (cfg := cfg) (inp := inp) hs hh) ht n ms msL hS with
+    hstop | ⟨mrS, sigS, _⟩
+  · exact hstop.elim
+  rcases Cong.runLoop_congS (lexL_ok (d0 := d0) (tbl := tbl) (cfg := cfg) (inp := inp) hs hh ed ho) ht n ml mlL hL with
+    ⟨s, hstop, _⟩ | ⟨mrL, sigL, _⟩
+  · rw [h2] at hstop; cases hstop
+  rw [h1] at mrS sigS
+  rw [h2] at mrL sigL
+  have e1 : runLoop (envS tbl cfg) inp n msL = ((runLoop (envS tbl cfg) inp n msL).1, .endOfInput ks) :=
+    Prod.ext rfl sigS.symm
+  have e2 : runLoop (envL tbl cfg) inp n mlL = ((runLoop (envL tbl cfg) inp n mlL).1, .endOfInput kl) :=
+    Prod.ext rfl sigL.symm
+  obtain ⟨ms0, ml0, r0, x1, x2, st⟩ := runLoop_end P hside n msL mlL _ _ hrel ks kl e1 e2
+  have c1 : ms'.c = (runLoop (envS tbl cfg) inp n msL).1.c := mrS.1
+  exact ⟨⟨ms0, ml0, r0, by rw [c1, st], by rw [← x1]; exact mrS.2.2.2, by rw [← x2]; exact mrL.2.2.2⟩,
+    mrS.2.2.1, mrL.2.2.1⟩
+
+/-- fresh machines with `is_last = last` -/
+theorem C06_aligned_initial' (hdata : P.at tbl.dataState = .outClean) (strict last : Bool) {dl : Disp (γ × Flags)} {ds : Disp γ}
+    (h : ObsR false dl ds) (hm : ScanMode H ds) :
+    Aligned H o cfg P ds ((Parser.new tbl ds .scan strict).machine last) ((Parser.new tbl dl .lex strict).machine last) := by
+  have hr := C06_initial tbl cfg P hdata strict
+  unfold RelAt at hr
+  have hr2 := Rel_common (cfg := cfg) (fun c => { c with isLast := last }) (fun _ _ _ => rfl) hr
+  refine ⟨⟨{ state := tbl.dataState, isLast := last }, .scanner {}, { sink := [], sim := Sim.new strict }⟩,
+    ⟨{ state := tbl.dataState, isLast := last }, .lexer {}, { sink := [], sim := Sim.new strict }⟩, ?_, ?_, ?_⟩
+  · exact ⟨rfl, rfl, ⟨_, rfl⟩, rfl, hm, rfl⟩
+  · exact ⟨rfl, rfl, ⟨_, rfl⟩, h, hm, rfl⟩
+  · exact hr2
+
+/-- **C06_scan_indep_parse_partial** (rung R1 for one `Parser::parse` call, any `last`). Fresh parsers of the two
+runs over `ObsR false`-related dispatchers; the plain run's parsing loop ends with "end of input" without a
+hand-over, the observing run's too: both `parse` calls succeed, and the contexts they leave are aligned —
+outside a tag `H` is in the same state and the dispatchers are related. -/
+theorem C06_scan_indep_parse_partial (hside : PhaseOk tbl P = true) (ht : EmitsChecked tbl = true)
+    (hdata : P.at tbl.dataState = .outClean)
+    (hs : StayScan H) (hh : HashOnly H) (ed : EmitDiscipline H) (ho : o.sticky = true) (inp : Bytes) (strict last : Bool)
+    {dl : Disp (γ × Flags)} {ds : Disp γ} (h : ObsR false dl ds) (hm : ScanMode H ds) (ks kl : Nat)
+    (h1 : (runLoop (envPlain H tbl cfg) inp (defaultFuel inp) ((Parser.new tbl ds .scan strict).machine last)).2 = .endOfInput ks)
+    (h2 : (runLoop (envObs H o tbl cfg) inp (defaultFuel inp) ((Parser.new tbl dl .lex strict).machine last)).2 = .endOfInput kl) :
+    let R := Parser.parse (envPlain H tbl cfg) inp last (Parser.new tbl ds .scan strict)
+    let R' := Parser.parse (envObs H o tbl cfg) inp last (Parser.new tbl dl .lex strict)
+    R.2 = .ok ks ∧ R'.2 = .ok kl ∧
+    (P.at R.1.scanC.state ≠ .inTag → ObsR false R'.1.x.sink R.1.x.sink ∧ R'.1.x.sink.ctl.1 = R.1.x.sink.ctl) ∧
+    (P.at R.1.scanC.state = .inTag →
+      ∃ (D : Disp γ) (ev : TagEv), ObsR false R'.1.x.sink D ∧ ScanMode H D ∧ R.1.x.sink = hintEv H D ev) := by
+  intro R R'
+  obtain ⟨hal, ⟨s, hks⟩, ⟨l, hkl⟩⟩ := C06_scan_indep_loop hside ht hs hh ed ho inp ds (defaultFuel inp) ks kl _
+    (runLoop (envPlain H tbl cfg) inp (defaultFuel inp) ((Parser.new tbl ds .scan strict).machine last)).1 _
+    (runLoop (envObs H o tbl cfg) inp (defaultFuel inp) ((Parser.new tbl dl .lex strict).machine last)).1
+    (C06_aligned_initial' (o := o) (cfg := cfg) hdata strict last h hm) (Prod.ext rfl h1) (Prod.ext rfl h2)
+  have eR := parse_eoi (envPlain H tbl cfg) inp last (Parser.new tbl ds .scan strict) ks h1
+  have eR' := parse_eoi (envObs H o tbl cfg) inp last (Parser.new tbl dl .lex strict) kl h2
+  generalize (runLoop (envPlain H tbl cfg) inp (defaultFuel inp) ((Parser.new tbl ds .scan strict).machine last)).1 = ms' at hal hks eR
+  generalize (runLoop (envObs H o tbl cfg) inp (defaultFuel inp) ((Parser.new tbl dl .lex strict).machine last)).1 = ml' at hal hkl eR'
+  have x1 : R.1.x.sink = ms'.x.sink := by simp only [R, eR, Cong.store_x']
+  have x2 : R'.1.x.sink = ml'.x.sink := by simp only [R', eR', Cong.store_x']
+  have c1 : R.1.scanC.state = ms'.c.state := by
+    simp only [R, eR]
+    unfold Parser.store
+    rw [hks]
+  refine ⟨by simp only [R, eR], by simp only [R', eR'], ?_, ?_⟩
+  · intro hab
+    rw [c1] at hab
+    obtain ⟨b1, _, _, b4⟩ := C06_alignedX_boundary hal hab
+    rw [x1, x2]
+    exact ⟨b1, b4⟩
+  · intro hab
+    rw [c1] at hab
+    obtain ⟨D, ev, b1, b2, b3⟩ := C06_alignedX_inTag hal hab
+    rw [x1, x2]
+    exact ⟨D, ev, b1, b2, b3⟩
 
 end
 
@@ -230,6 +373,22 @@ example : ∃ ms' ml',
         countCtl_stayScan countCtl_hashOnly countCtl_emit (by decide) sampleInput false obsR_0 scanMode_0 15 ms' ml' e1 e2 hab
       exact ⟨ms', ml', rfl, rfl, r1, h1.2⟩
 
+/-- `Parser::parse` of `<a b='c'>x</a><!--` with `last = true`: both loops end with "end of input" (18 bytes
+consumed), in `comment_start_state` (42, outside a tag): by the theorem `countCtl` is in the same state (101). -/
+example :
+    let R := Parser.parse (envPlain countCtl Gen.Syntax.table Gen.Tags.cfg) sampleInput true (Parser.new Gen.Syntax.table ds0 .scan false)
+    let R' := Parser.parse (envObs countCtl (Flags.ofNat 1) Gen.Syntax.table Gen.Tags.cfg) sampleInput true
+      (Parser.new Gen.Syntax.table dl0 .lex false)
+    R.2 = .ok 18 ∧ R'.2 = .ok 18 ∧ R'.1.x.sink.ctl.1 = R.1.x.sink.ctl ∧ R.1.x.sink.ctl = 101 := by
+  intro R R'
+  obtain ⟨r1, r2, r3, _⟩ := C06_scan_indep_parse_partial (H := countCtl) (o := Flags.ofNat 1) (P := genPhaseLabels)
+    (cfg := Gen.Tags.cfg) C06_phaseSide_gen C06_emitsChecked_gen (by decide)
+    countCtl_stayScan countCtl_hashOnly countCtl_emit (by decide) sampleInput false true obsR_0 scanMode_0 18 18
+    (by decide +kernel) (by decide +kernel)
+  have hst : R.1.scanC.state = 42 := by decide +kernel
+  have hab : genPhaseLabels.at R.1.scanC.state ≠ .inTag := by rw [hst]; decide
+  exact ⟨r1, r2, (r3 hab).2, by decide +kernel⟩
+
 /-! ### `C06_independence_statement3` is false as stated -/
 
 def countWorld : World Nat := ⟨Gen.Syntax.table, Gen.Tags.cfg, countCtl⟩
@@ -281,12 +440,7 @@ def C06_independence_statement4 : Prop :=
     P.at R'.1.stream.parser.lexC.state ≠ .inTag →
       R'.1.stream.disp.ctl.1 = R.1.stream.disp.ctl
 
-/-- **rung R1 at the level of the parsing loop** (not proved; `C06_scan_indep_steps` is this for every
-signal-free prefix of the two loops): the two fresh machines over `ObsR false`-related dispatchers, `is_last` set,
-both parsing loops running to "end of input": the dispatchers are related at the end (outside a tag).
-Missing: the last state-function call, in which both machines signal — `StepRel` (`Lemmas/ScanLexSim.lean`)
-says nothing about the two machines in that case; needed is that the action list run before
-`break_on_end_of_input` keeps `Rel` (it does: `runBody_rel`, but `finishArm_rel` … `stateFn_rel` drop it). -/
+/-- rung R1 at the level of the parsing loop, as a closed statement: proved, `C06_scan_indep_loop_closed` -/
 def C06_scan_indep_loop_statement : Prop :=
   ∀ (γ : Type) (H : Controller γ) (o : Flags) (tbl : Table) (cfg : TagCfg) (P : PLabels),
     PhaseOk tbl P = true → EmitsChecked tbl = true → P.at tbl.dataState = .outClean →
@@ -298,6 +452,14 @@ def C06_scan_indep_loop_statement : Prop :=
       runLoop (envObs H o tbl cfg) inp n ⟨{ state := tbl.dataState, isLast := true }, .lexer {}, { sink := dl, sim := Sim.new strict }⟩ =
         (ml', .endOfInput kl) →
       P.at ms'.c.state ≠ .inTag → ObsR false ml'.x.sink ms'.x.sink
+
+theorem C06_scan_indep_loop_closed : C06_scan_indep_loop_statement := by
+  intro γ H o tbl cfg P hside ht hdata hs hh ed ho inp strict dl ds h hm n ks kl ms' ml' h1 h2 hab
+  have hal : Aligned H o cfg P ds
+      (⟨{ state := tbl.dataState, isLast := true }, .scanner {}, { sink := ds, sim := Sim.new strict }⟩ : M (Disp γ))
+      ⟨{ state := tbl.dataState, isLast := true }, .lexer {}, { sink := dl, sim := Sim.new strict }⟩ :=
+    C06_aligned_initial' (o := o) (cfg := cfg) hdata strict true h hm
+  exact (C06_alignedX_boundary (C06_scan_indep_loop hside ht hs hh ed ho inp ds n ks kl _ ms' _ ml' hal h1 h2).1 hab).1
 
 /-- **rung R2** (not proved): `C06_scan_indep_steps` without `StayScan` — when `H` answers a hint with `lex`
 the plain run's parser restarts its lexer at the `<` of the hinted tag (`C06_relex_same_tag`), the re-lexed tag
